@@ -57,6 +57,11 @@ BREAKING = [
     ("recv-finished-pdu-drops-responses", RECV, "                filestore_response: self.filestore_response.clone(),\n                fault_location,", "                filestore_response: vec![],\n                fault_location,", {"C13": 1}),
     ("send-unack-closure-shutdown", SEND, "                                self.shutdown();\n                            }\n                        }\n                    }\n                }\n                SendState::Cancelled", "                            }\n                            self.shutdown();\n                        }\n                    }\n                }\n                SendState::Cancelled", {"C18": 1}),
     ("recv-resume-naks-any-mode", RECV, "                if self.config.transmission_mode == TransmissionMode::Acknowledged\n                    && (matches!(self.nak_procedure, NakProcedure::Immediate(_))\n                        || self.eof_received())", "                if matches!(self.nak_procedure, NakProcedure::Immediate(_)) || self.eof_received()", {"C18": 1}),
+    ("recv-cancel-returns-to-receive", RECV, "    fn _cancel(&mut self) {\n        self.recv_state = RecvState::Cancelled;", "    fn _cancel(&mut self) {\n        self.recv_state = RecvState::ReceiveData;", {"C10": 1}),
+    ("recv-peer-cancel-keeps-noerror", RECV, "                                self.condition = eof.condition;\n                                self.prepare_ack_eof();", "                                self.prepare_ack_eof();", {"C10": 1}),
+    ("send-cancel-without-fault-location", SEND, "        self.prepare_eof(Some(self.config.source_entity_id))", "        self.prepare_eof(None)", {"C10": 1}),
+    ("send-cancelled-ack-stops-clock", SEND, "        if self.send_state == SendState::SendEof || self.send_state == SendState::Cancelled {", "        if self.send_state == SendState::SendEof {", {"C03": 1}),
+    ("recv-shutdown-keeps-active", RECV, "        self.state = TransactionState::Terminated;\n        self.timer.ack.pause();\n        self.timer.nak.pause();", "        self.timer.ack.pause();\n        self.timer.nak.pause();", {"C03": 1}),
     ("crc-poly-typo", PDU, "let poly = 0x1021;", "let poly = 0x1012;", {"C15": 1}),
     ("crc-over-reencoding", PDU, "                    let mut temp = received_pdu.header.clone().encode();\n                    temp.extend_from_slice(remaining_msg.as_slice());\n                    temp",
      "                    let mut temp = received_pdu.clone().encode();\n                    temp.truncate(temp.len() - 2);\n                    temp", {"C15": 1}),
